@@ -30,6 +30,7 @@ import (
 	"fmt"
 	"runtime"
 	"sync"
+	"sync/atomic"
 	"syscall"
 	"time"
 
@@ -263,11 +264,12 @@ var jPoint = map[string]uint64{
 }
 
 type jx struct {
-	mu     sync.Mutex
-	cond   *sync.Cond
-	wakeFn func()
-	sc     *jScenario
-	joe    *sse.Joe
+	clockJump atomic.Int64 // seconds added to the ValidReplayer's clock (kind 3)
+	mu        sync.Mutex
+	cond      *sync.Cond
+	wakeFn    func()
+	sc        *jScenario
+	joe       *sse.Joe
 
 	evs    []val.V
 	counts map[[2]uint64]uint64
@@ -621,6 +623,7 @@ type jrep struct {
 	x          *jx
 	inner      sse.Replayer
 	nput, nrep int
+	accepted   int
 }
 
 func jScriptAt(s []uint64, k int) uint64 {
@@ -665,6 +668,17 @@ func (r *jrep) Put(m *sse.Message, topics []string) (out *sse.Message, err error
 		out = m
 	default:
 		out, err = r.inner.Put(m, topics)
+		if err == nil {
+			r.accepted++
+			if m, k := int(r.x.sc.cap)/100, int(r.x.sc.cap)%100; r.x.sc.kind == 3 {
+				switch r.accepted {
+				case m:
+					r.x.clockJump.Store(600)
+				case m + k:
+					r.x.clockJump.Store(1100) // the first m accepted events are expired from now on, the next k are not
+				}
+			}
+		}
 	}
 	seq := r.x.rec(40, p, val.N(joeErrCode(err)), jMsgID(out))
 	r.x.after(40, p, seq)
@@ -729,6 +743,12 @@ func joeRunScenario(v val.V, seq uint64, shm []byte) (status uint64, events []va
 		}
 	case 2:
 		if r, err := sse.NewValidReplayer(time.Hour, sc.auto != 0); err == nil {
+			inner = r
+		}
+	case 3:
+		if r, err := sse.NewValidReplayer(1000*time.Second, sc.auto != 0); err == nil {
+			start := time.Now()
+			r.Now = func() time.Time { return start.Add(time.Duration(x.clockJump.Load()) * time.Second) }
 			inner = r
 		}
 	}
